@@ -32,7 +32,7 @@ class C08(Prop):
     proof_modules = ['DznProofs.C08']
     level_rule = ('configurations whose port selections name 2-5 ports, built in child interpreters with '
                   'PYTHONHASHSEED 0..15 (quick) / 0..127 (thorough), each with a different construction order of '
-                  'the equal sets; sha256 of all files compared across children and with the Lean model; '
+                  'the equal sets and its own order of the builds within the process; sha256 of all files compared across children and with the Lean model; '
                   'GeneratedContent.hash compared with the model MD5; non-trivial = >=2 names in a selection; '
                   'distinct = distinct (model, configuration)')
     assumptions = ['determinism "across processes" is the absence of any other input of the model function; '
@@ -124,7 +124,7 @@ class C08(Prop):
                 a = per_child[0]
                 b = next(pc for pc in per_child if canon(pc.get('files', pc.get('err'))) != canon(a.get('files', a.get('err'))))
                 failures.append({'case': c, 'impl': {'child_a': a, 'child_b': b}, 'model': None,
-                                 'failed': ['output-depends-on-hash-seed-or-set-order'], 'noshrink': True})
+                                 'failed': ['output-depends-on-hash-seed-set-order-or-process-history'], 'noshrink': True})
                 continue
             m = recs[i]['model']
             if m is None or 'ok' not in m:
